@@ -471,13 +471,24 @@ fn clones_case<K: El, V: El>(cfg: &Cfg, rng: &mut Rng, rep: &mut Report, tag: &s
             continue;
         }
         div.push(format!("{name}: {}", op.encode()));
-        let r = x.step(&op);
-        let r = r.and_then(|_| if i % 4 == 0 { y.full_check("C11", &[], "an operation on the other map") } else { Ok(()) });
-        if let Err(v) = r {
-            // anything going wrong after a clone while the other side is alive is a C11 matter
+        let _ = i;
+        // The map operated on was fully consistent before this call (checked after its own last
+        // call and after every call on the other map), so if the call itself misbehaves that is
+        // the call's own property, not clone independence ...
+        if let Err(v) = x.step(&op) {
             let mut bd = body(&ops_a, &ops_b);
             bd.push(("divergent_ops", div.join("; ")));
-            rep.direct_violation("C11", tag, &format!("[{}] {}", v.prop, v.msg), &bd);
+            rep.direct_violation(v.prop, tag, &format!("(on the {name} after a clone) {}", v.msg), &bd);
+            std::mem::forget(a);
+            std::mem::forget(b);
+            return;
+        }
+        // ... whereas the *other* map changing under a call it was not involved in is exactly
+        // what C11 forbids
+        if let Err(v) = y.full_check("C11", &[], "an operation on the other map") {
+            let mut bd = body(&ops_a, &ops_b);
+            bd.push(("divergent_ops", div.join("; ")));
+            rep.direct_violation("C11", tag, &format!("an operation on the {name} showed through the other map: {}", v.msg), &bd);
             std::mem::forget(a);
             std::mem::forget(b);
             return;
